@@ -192,6 +192,30 @@ class _PointView:
         self.res = res
 
 
+def _bounds_per_variable(bounds, m):
+    """scipy's `bounds` argument as a list of (lo, hi) per variable (None = unbounded on that side)."""
+    if bounds is None:
+        return [(0, None)] * m
+    bl = list(bounds)
+    if len(bl) == 2 and not isinstance(bl[0], (list, tuple)):
+        pairs = [(bl[0], bl[1])] * m
+    else:
+        pairs = [tuple(pr) for pr in bl]
+        if len(pairs) == 1:
+            pairs = pairs * m
+        if len(pairs) != m:
+            raise ValueError("linprog stub: bounds do not match the number of variables")
+    out = []
+    for lo, hi in pairs:
+        for v in (lo, hi):
+            if isinstance(v, E.SymReal):
+                raise E.SymLeak("symbolic variable bound in linprog")
+        lo = None if lo is None or lo == float("-inf") else lo
+        hi = None if hi is None or hi == float("inf") else hi
+        out.append((lo, hi))
+    return out
+
+
 def make_linprog(real_linprog, validate=False):
     import numpy as np
 
@@ -207,8 +231,8 @@ def make_linprog(real_linprog, validate=False):
             return real_linprog(
                 c=c_arr.astype(float), A_ub=A.astype(float), b_ub=b.astype(float), bounds=bounds, **kw
             )
-        if bounds != (None, None) or A_eq is not None:
-            raise E.SymLeak("linprog stub only models free variables and inequality rows")
+        if A_eq is not None:
+            raise E.SymLeak("linprog stub only models inequality rows")
         if A.ndim != 2:
             raise E.SymLeak("linprog stub: A must be a matrix")
         n, m = A.shape
@@ -217,6 +241,16 @@ def make_linprog(real_linprog, validate=False):
         Af = [[E.frac(A[i, j]) for j in range(m)] for i in range(n)]
         cf = [E.frac(v) for v in c_arr]
         bz = [E.toz(v) for v in b]
+        # variable bounds (scipy: None means 0 <= x for every variable) become extra concrete rows
+        n_rows = n
+        for j, (lo, hi) in enumerate(_bounds_per_variable(bounds, m)):
+            if lo is not None:
+                Af.append([Fraction(-1) if k == j else Fraction(0) for k in range(m)])
+                bz.append(E.q(-E.frac(lo)))
+            if hi is not None:
+                Af.append([Fraction(1) if k == j else Fraction(0) for k in range(m)])
+                bz.append(E.q(E.frac(hi)))
+        n = len(Af)
         # linprog is a function: the same problem asked twice on one path gets the same answer
         cache = eng.path_state.setdefault("lp_cache", {})
         ckey = (tuple(tuple(r) for r in Af), tuple(cf), tuple(z.get_id() for z in bz))
@@ -274,7 +308,7 @@ def make_linprog(real_linprog, validate=False):
                     eng.assume(z3.Or(*alts))
         res.update(status=0, fun=f, success=True, message="optimal (stub)")
         res["x"] = np.array(xs, dtype=object)
-        res["slack"] = np.array(slack, dtype=object)
+        res["slack"] = np.array(slack[:n_rows], dtype=object)
         out = _Tracked(res, eng)
         cache[ckey] = out
         return out
